@@ -7,6 +7,9 @@ CONSTANTS
   CloseOnNilPayload = TRUE
   PooledBuffer = FALSE
   UEOFIsEnd = FALSE
+  ZeroCopyBuffer = FALSE
+  SeqReaders = {"script", "bytesbuffer", "bytesreader", "stringsreader"}
+  SeqDeepReaders = {"script"}
   MaxSeq = 3
   MaxContent = 2
   MaxChunks = 3
